@@ -205,3 +205,10 @@ class AbsHook:
 
     def __call__(self):
         raise NotImplementedError("external")
+
+
+def _abs_queue_get_nowait(self):
+    raise NotImplementedError("external")
+
+
+AbsQueue.get_nowait = _abs_queue_get_nowait
